@@ -265,3 +265,17 @@ package stage
 
 //@ func (*Stage).Prepare
 //@   before call (*Stage).initStageFile assert prepare-under-lock: exclusive(lock) && arg1 == pathjoin(s.rootDir, lastret(sts.Binned.GetName, 0))
+
+// ---------------------------------------------------------------- ageing of the delivery record (C05)
+
+// cleanCache: the watermark s.cacheTime tells buildCache from where on the in-memory record is
+// complete, so it may only be lowered to the logged time of an entry that stays in the record - an
+// entry that is dropped in the same pass must never pull it down (a retransmission of that file
+// would then be looked for neither in memory nor in the log). Only delivered (finalized or logged),
+// aged entries are dropped, and never one that a successor still waits for.
+//@ func (*Stage).cleanCache
+//@   track store cacheTime
+//@   loop 1 backedge assert watermark-from-kept-entries-only: !(called(builtin.delete) && stored(cacheTime))
+//@   before call builtin.delete assert drops-only-aged-deliveries: exclusive(&s.cacheLock) && arg0 == s.cache && arg1 == cacheFile.path && cacheFile.state >= stateFinalized && (cacheFile.prev == "" || cacheFile.nextFinal) && age > cacheAgeLogged && !initer(stored(cacheTime))
+//@   before store cacheTime assert watermark-only-moves-down-in-the-pass: called(time.Now) && !initer(called(builtin.delete))
+//@   modifies everything
